@@ -104,8 +104,8 @@ static void rec_double(const char * src, double v) {
     s[sizeof s - 1] = 0;
     bytes("ts", s);
     {
-        /* the same helper with a buffer that the text fills exactly, and with one of 300 bytes */
-        static char big[300];
+        /* the same helper with a buffer that the text fills exactly, and with one of 256 bytes */
+        static char big[256];
         size_t need = strlen(s) + 1;
         char * fit = malloc(need);
         memset(fit, 0x55, need);
@@ -170,7 +170,7 @@ static void rec_float(const char * src, float f) {
     s[sizeof s - 1] = 0;
     bytes("ts", s);
     {
-        static char big[300];
+        static char big[256];
         size_t need = strlen(s) + 1;
         char * fit = malloc(need);
         memset(fit, 0x55, need);
